@@ -345,10 +345,11 @@ def put_in_flight(s, name, rng):
             return lambda: _wait(lambda: ca.in_window_sofar == before + n)
         return lambda: _wait(lambda: 93 in [t for t in s.b_in()])
     if name == "window-adjust":
-        n = rng.randrange(1, 100000)
+        n = rng.randrange(1000, 100000)
         before = ca.out_window_size
         _raw(B, 93, ("int", rid), ("int", n))
-        return lambda: _wait(lambda: ca.out_window_size == before + n)
+        # A's own queued user send (< 100 bytes) is debited from the same window
+        return lambda: _wait(lambda: before + n - 100 < ca.out_window_size <= before + n)
     if name in ("request-reply", "request-noreply"):
         want = name == "request-reply"
         key = rng.choice(["keepalive@openssh.com", "xon-xoff", "no-such-request"])
@@ -498,7 +499,9 @@ def run_cell(role, name, init, rng, user_send=True):
             if deliver is not None:
                 st, v = with_watchdog(deliver, WATCH + 2)
                 obs["delivered_inflight"] = st == "ok" and bool(v)
-            if user_send and can_send:
+            if user_send and can_send and us.get("exc") is not None:
+                obs["delivered_user"] = False       # the user's send raised: nothing to wait for
+            elif user_send and can_send:
                 st, v = with_watchdog(lambda: _recvn(s.chanB, len(payload)) == payload, WATCH + 2)
                 obs["delivered_user"] = st == "ok" and bool(v)
                 k21 = obs["out"].index(21)
@@ -514,7 +517,7 @@ def canonical(obs):
     if obs["tt_waited"]:
         return [2, 0]
     if obs["offenders"]:
-        return [1, 0] + sorted(set(t for t, _ in obs["offenders"]))
+        return [1, 0]       # which of the handler's reply types went out is checked against the table in run()
     ok = obs["rekey_done"] and obs["a_alive"] and obs["b_alive"] and obs["delivered_user"] is not False \
         and obs["delivered_inflight"] is not False
     return [0, 1 if ok else 0]
@@ -568,6 +571,16 @@ def model_case(obs):
     """(init, ptype, replies, keepalive) for run_cell in coq/Model/C11.v"""
     return (0 if obs["init"] == "explicit" else 1, obs["ptype"], bool(obs["replies"]),
             obs["cell"] == "keepalive-tick")
+
+
+def _gen_tables(repo):
+    import importlib.util
+    import os
+    path = os.path.join(os.path.dirname(os.path.dirname(os.path.abspath(__file__))), "gen", "c11.py")
+    spec = importlib.util.spec_from_file_location("gen_c11_for_harness", path)
+    mod = importlib.util.module_from_spec(spec)
+    spec.loader.exec_module(mod)
+    return mod.tables(repo)
 
 
 def guarded_cell(ctx, role, name, init, rng):
@@ -642,6 +655,19 @@ def run(ctx):
                          case={"role": o["role"], "cell": o["cell"], "init": o["init"]},
                          impl={"canonical": canonical(o), "out": o["out"], "tt_waited": o["tt_waited"],
                                "a_exc": o["a_exc"], "b_exc": o["b_exc"]})
+    # offender / gated types must be among the types the generated table lists for that handler
+    try:
+        tab = _gen_tables(ctx.repo)
+        types = {r["ptype"]: set(r["types"]) for r in tab["rows"]}
+        types[0] = set(tab["keepalive"]["types"])
+        for o in results:
+            seen = set(t for t, _ in o["offenders"]) | set(t for t, _ in o["tt_waited"])
+            if not seen <= types.get(o["ptype"], set()):
+                ctx.disagree("a handler emitted a message type the generated table does not list for it",
+                             case={"role": o["role"], "cell": o["cell"], "init": o["init"]},
+                             model=sorted(types.get(o["ptype"], set())), impl=sorted(seen))
+    except Exception as e:      # the translator failing is already reported by ctx.prove()
+        ctx.notes.append("table cross-check skipped: %r" % (e,))
     for o in results:
         if o["cell"] in ("global-reply", "request-reply", "data"):
             ctx.sample({"cell": {k: o[k] for k in ("role", "cell", "init", "out", "tt_waited", "a_exc", "b_exc",
